@@ -56,6 +56,7 @@ theorem step_list (xs : List Val) (st : LStep) (hg : Good xs) (ha : admissibleL 
   | index v => rfl
   | count v => rfl
   | indexIn v a b => rfl
+  | radd vs => rfl
   | getBad => rfl
   | setBad => rfl
   | delBad => rfl
@@ -264,6 +265,7 @@ theorem specL_good (xs : List Val) (st : LStep) (hg : Good xs) (ha : admissibleL
   | index v => exact hg
   | count v => exact hg
   | indexIn v a b => exact hg
+  | radd vs => exact hg
   | getBad => exact hg
   | setBad => exact hg
   | delBad => exact hg
